@@ -129,7 +129,11 @@ func avg(numbers ...float64) float64 {
 	return total / count
 }
 
-var alnumRegexp = regexp.MustCompile("[^a-z0-9 ]")
+// alnumRegexp matches everything that is not a letter, a number or a space. It
+// must not be limited to ASCII, otherwise names written in other scripts (or
+// that only differ in their accented letters) are reduced to nothing and even
+// two identical names would have a similarity of zero.
+var alnumRegexp = regexp.MustCompile(`[^\p{L}\p{N} ]`)
 
 // StringSimilarity is a less sensitive version of a JaroWinkler string
 // comparison. It is the ideal choice to compare strings that represent
